@@ -151,14 +151,26 @@ def run(ctx):
                 order.append(k)
             groups[k][2].append(i)
     explained_tie = False
+    # smallest definition of each group first, then minimise on the real generators (the groups
+    # that are not known findings, at most five, in parallel)
+    reps, todo = {}, []
     for k in order:
         f, code, idx = groups[k]
-        # smallest definition first, then minimise on the real generators
-        rep_case = min((cases[i] for i in idx), key=lambda c: len(json.dumps(c["spec"])))
+        reps[k] = min((cases[i] for i in idx), key=lambda c: len(json.dumps(c["spec"])))
         known = any(fd.get("property") == ctx.pid and fd.get("status") == "open" and fd.get("match") and
                     all(f.get(a) == b for a, b in fd["match"].items()) for fd in ctx.findings)
-        if code == 1 and not known and ctx.nreplay < 5:
-            rep_case = bl.minimise(ctx, farm_runner, rep_case, f, rounds=8 if quick else 14)
+        if code == 1 and not known and len(todo) < 5:
+            todo.append(k)
+    if todo:
+        import concurrent.futures
+        with concurrent.futures.ThreadPoolExecutor(max_workers=5) as ex:
+            futs = {k: ex.submit(bl.minimise, ctx, farm_runner, reps[k], groups[k][0],
+                                 8 if quick else 14, "g%d" % n) for n, k in enumerate(todo)}
+            for k, fu in futs.items():
+                reps[k] = fu.result()
+    for k in order:
+        f, code, idx = groups[k]
+        rep_case = reps[k]
         rep = {"case": bl.view(rep_case),
                "verdict": {1: "the generator neither reported an error nor produced a gofmt-clean package that "
                               "builds with the interface assertions",
